@@ -1,6 +1,7 @@
 package main
 
 import (
+	"sort"
 	"bufio"
 	"bytes"
 	"fmt"
@@ -8,6 +9,7 @@ import (
 	"os/exec"
 	"strings"
 
+	"google.golang.org/protobuf/encoding/protojson"
 	"google.golang.org/protobuf/encoding/prototext"
 	"google.golang.org/protobuf/encoding/protowire"
 	vh "google.golang.org/protobuf/internal/zz_verif_vh"
@@ -393,6 +395,31 @@ func utf8Case(c *C, r *Root, m protoreflect.Message, dyn bool) {
 	bad := refBadUTF8(m)
 	_, err := partial.Marshal(m.Interface())
 	c.Check((errClass(err) == "err utf8") == bad && (err == nil) == !bad, fmt.Sprintf("Marshal err=%v but enforced-invalid-UTF-8 present=%v", err, bad), in, "")
+	// protojson / prototext: validated strings with invalid UTF-8 are rejected, valid UTF-8 (U+FFFD included) is
+	// never rejected as invalid; text passes non-validated strings and bytes through unchanged
+	anyBad := refBadStrings(m, false)
+	isU := func(e error) bool { return e != nil && strings.Contains(e.Error(), "UTF-8") }
+	jb, jerr := protojson.MarshalOptions{AllowPartial: true}.Marshal(m.Interface())
+	if bad {
+		c.Check(jerr != nil, "protojson.Marshal accepts invalid UTF-8 in a validated string field", in, "")
+	}
+	if !anyBad {
+		c.Check(!isU(jerr), fmt.Sprintf("protojson.Marshal rejects valid UTF-8: %v", jerr), in, "")
+		if jerr == nil {
+			uerr := protojson.UnmarshalOptions{AllowPartial: true}.Unmarshal(jb, m.New().Interface())
+			c.Check(!isU(uerr), fmt.Sprintf("protojson.Unmarshal rejects its own output as invalid UTF-8: %v", uerr), in, "")
+		}
+	}
+	tb, terr := prototext.MarshalOptions{AllowPartial: true}.Marshal(m.Interface())
+	c.Check((terr != nil) == bad, fmt.Sprintf("prototext.Marshal err=%v but enforced-invalid-UTF-8 present=%v", terr, bad), in, "")
+	if terr == nil && !hasUnknownAnywhere(m) {
+		m3 := m.New()
+		uerr := prototext.UnmarshalOptions{AllowPartial: true}.Unmarshal(tb, m3.Interface())
+		c.Check(!isU(uerr), fmt.Sprintf("prototext.Unmarshal rejects prototext.Marshal output as invalid UTF-8: %v", uerr), in, "")
+		if uerr == nil {
+			c.Check(stringsOf(m3) == stringsOf(m), "strings/bytes not passed through the text codec unchanged", in, "")
+		}
+	}
 	if c.HasModel() {
 		ans := c.Ask("enc 0 %s", snap)
 		c.Compare("enc: model utf8 verdict", in, fmt.Sprint(bad), fmt.Sprint(ans == "err utf8"))
@@ -423,16 +450,58 @@ func utf8Case(c *C, r *Root, m protoreflect.Message, dyn bool) {
 	c.Case(snap, strings.Contains(snap, " b "))
 }
 
-func refBadUTF8(m protoreflect.Message) bool {
+func refBadUTF8(m protoreflect.Message) bool { return refBadStrings(m, true) }
+
+// stringsOf: the sorted multiset of all string and bytes values (with their field numbers) anywhere in m.
+func stringsOf(m protoreflect.Message) string {
+	var out []string
+	var walk func(m protoreflect.Message)
+	val := func(fd protoreflect.FieldDescriptor, v protoreflect.Value) {
+		switch {
+		case fd.Message() != nil:
+			walk(v.Message())
+		case fd.Kind() == protoreflect.StringKind:
+			out = append(out, fmt.Sprintf("%d:s:%x", fd.Number(), v.String()))
+		case fd.Kind() == protoreflect.BytesKind:
+			out = append(out, fmt.Sprintf("%d:b:%x", fd.Number(), v.Bytes()))
+		}
+	}
+	walk = func(m protoreflect.Message) {
+		m.Range(func(fd protoreflect.FieldDescriptor, v protoreflect.Value) bool {
+			switch {
+			case fd.IsMap():
+				v.Map().Range(func(k protoreflect.MapKey, mv protoreflect.Value) bool {
+					val(fd.MapKey(), k.Value())
+					val(fd.MapValue(), mv)
+					return true
+				})
+			case fd.IsList():
+				for i := 0; i < v.List().Len(); i++ {
+					val(fd, v.List().Get(i))
+				}
+			default:
+				val(fd, v)
+			}
+			return true
+		})
+	}
+	walk(m)
+	sort.Strings(out)
+	return strings.Join(out, " ")
+}
+
+// refBadStrings: some string (field, list element, map key or value, at any depth) is not valid UTF-8;
+// onlyEnforced restricts this to fields whose UTF-8 validity is enforced.
+func refBadStrings(m protoreflect.Message, onlyEnforced bool) bool {
 	bad := false
 	var chk func(fd protoreflect.FieldDescriptor, v protoreflect.Value)
 	chk = func(fd protoreflect.FieldDescriptor, v protoreflect.Value) {
 		switch {
 		case fd.Message() != nil:
-			if refBadUTF8(v.Message()) {
+			if refBadStrings(v.Message(), onlyEnforced) {
 				bad = true
 			}
-		case fd.Kind() == protoreflect.StringKind && enforce(fd):
+		case fd.Kind() == protoreflect.StringKind && (!onlyEnforced || enforce(fd)):
 			if !validUTF8(v.String()) {
 				bad = true
 			}
@@ -472,6 +541,9 @@ func runEqual(c *C) {
 				equalCase(c, r, a, dyn)
 				if i%4 == 0 {
 					extShapeCase(c, r, dyn)
+				}
+				if i%3 == 0 {
+					unknownShapeCase(c, r, dyn)
 				}
 			}
 		}
@@ -529,6 +601,88 @@ func extShapeCase(c *C, r *Root, dyn bool) {
 	}
 	c.Hist("ext-shape")
 	c.Case(sx+"|"+sy+"ext", true)
+}
+
+// unknownShapeCase: two messages with the same known content whose unknown fields are the same RECORDS in a
+// different order, with field numbers repeating and other numbers in between. Equal compares unknown fields per
+// field number (order within one number matters, order across numbers does not); the reference verdict is
+// computed here from the record lists, independently of the implementation. Operands must not be modified.
+func unknownShapeCase(c *C, r *Root, dyn bool) {
+	a := newFilled(c, r, dyn, Opts{FieldProb: 6})
+	a.SetUnknown(nil)
+	nums := []protowire.Number{100000, 100001, 100007}[:2+c.Rand.Intn(2)]
+	type rec struct {
+		num protowire.Number
+		b   []byte
+	}
+	var recs []rec
+	for k := 3 + c.Rand.Intn(5); k > 0; k-- {
+		num := nums[c.Rand.Intn(len(nums))]
+		var b []byte
+		switch c.Rand.Intn(4) {
+		case 0:
+			b = protowire.AppendVarint(protowire.AppendTag(nil, num, protowire.VarintType), uint64(c.Rand.Intn(4)))
+		case 1:
+			b = protowire.AppendFixed32(protowire.AppendTag(nil, num, protowire.Fixed32Type), uint32(c.Rand.Intn(3)))
+		case 2:
+			b = protowire.AppendBytes(protowire.AppendTag(nil, num, protowire.BytesType), []byte("ab")[:c.Rand.Intn(3)])
+		default:
+			b = protowire.AppendVarint(protowire.AppendTag(nil, num, protowire.VarintType), 1<<40)
+		}
+		recs = append(recs, rec{num, b})
+	}
+	perm := append([]rec{}, recs...)
+	switch c.Rand.Intn(3) {
+	case 0: // arbitrary permutation
+		c.Rand.Shuffle(len(perm), func(i, j int) { perm[i], perm[j] = perm[j], perm[i] })
+	case 1: // stable regrouping by number: must stay equal
+		var g []rec
+		for _, n := range nums {
+			for _, x := range perm {
+				if x.num == n {
+					g = append(g, x)
+				}
+			}
+		}
+		perm = g
+	default: // swap two neighbours
+		i := c.Rand.Intn(len(perm) - 1)
+		perm[i], perm[i+1] = perm[i+1], perm[i]
+	}
+	cat := func(rs []rec, only protowire.Number) []byte {
+		var out []byte
+		for _, x := range rs {
+			if only == 0 || x.num == only {
+				out = append(out, x.b...)
+			}
+		}
+		return out
+	}
+	want := true
+	for _, n := range nums {
+		if !bytes.Equal(cat(recs, n), cat(perm, n)) {
+			want = false
+		}
+	}
+	b := proto.Clone(a.Interface()).ProtoReflect()
+	ua, ub := cat(recs, 0), cat(perm, 0)
+	a.SetUnknown(ua)
+	b.SetUnknown(ub)
+	sa, sb := r.Flat.Snap(a), r.Flat.Snap(b)
+	in := map[string]any{"type": r.Name, "family": family(dyn), "a": sa, "b": sb, "unknown_a": vh.Hex(ua), "unknown_b": vh.Hex(ub), "shape": "same unknown records, different order"}
+	defer c.Recover("equal(unknown shapes)", in, "")
+	ca := proto.Clone(a.Interface())
+	exy, eyx := proto.Equal(a.Interface(), b.Interface()), proto.Equal(b.Interface(), a.Interface())
+	c.Check(exy == want && eyx == want, fmt.Sprintf("Equal=%v/%v, unknown fields equal per field number=%v", exy, eyx, want), in, "")
+	c.Check(bytes.Equal(a.GetUnknown(), ua) && bytes.Equal(b.GetUnknown(), ub), fmt.Sprintf("Equal modified an operand: unknown fields now %x / %x", []byte(a.GetUnknown()), []byte(b.GetUnknown())), in, "")
+	c.Check(proto.Equal(a.Interface(), ca), "a message is no longer equal to its earlier clone after being compared", in, "")
+	v := protoreflect.ValueOfMessage(a).Equal(protoreflect.ValueOfMessage(b))
+	c.Check(v == want, fmt.Sprintf("protoreflect.Value.Equal=%v, expected %v", v, want), in, "")
+	if c.HasModel() {
+		c.Compare("equal: model eqMsg vs reference (unknown record order)", in, fmt.Sprint(b2i(want)), c.Ask("equal 0 %s | %s", sa, sb))
+	}
+	c.Hist(fmt.Sprintf("unknown-shape:%v", want))
+	c.Case(sa+"|"+sb+"unk", true)
 }
 
 func equalCase(c *C, r *Root, a protoreflect.Message, dyn bool) {
